@@ -41,7 +41,11 @@ type callerSpec struct {
 	// observes on, 2 another (unbuffered) handler, 3 a handler that has been closed. YieldFromIO returns the
 	// IO's value whatever the IO's own delivery configuration is
 	IOSub int `json:"ioSub"`
-	Gap   int `json:"gap"` // yields between requests
+	// DoRecv (DoNotation callers): the receiver the method is called on - 0 a zero CorDef, 1 the target
+	// coroutine itself (possibly running), 2 a helper coroutine that is started and running for the whole
+	// scenario. DoNotation gives its effect a coroutine of its own whatever it is called on
+	DoRecv int `json:"doRecv"`
+	Gap    int `json:"gap"` // yields between requests
 }
 
 type scenario struct {
@@ -61,7 +65,7 @@ func (s scenario) String() string {
 	var sb strings.Builder
 	fmt.Fprintf(&sb, "shape=%s startWithVal=%v eager=%v restart=%d callers=", []string{"fixed", "echo", "accumulate"}[s.Shape], s.StartWithVal, s.Eager, s.Restart)
 	for _, c := range s.Callers {
-		fmt.Fprintf(&sb, "[%s k=%d io@%d h=%v sub=%d gap=%d]", []string{"cor", "do", "newAndStart"}[c.Kind], c.K, c.IOAt, c.IOHandler, c.IOSub, c.Gap)
+		fmt.Fprintf(&sb, "[%s k=%d io@%d h=%v sub=%d recv=%d gap=%d]", []string{"cor", "do", "newAndStart"}[c.Kind], c.K, c.IOAt, c.IOHandler, c.IOSub, c.DoRecv, c.Gap)
 	}
 	fmt.Fprintf(&sb, " plan=%v", s.Plan)
 	return sb.String()
@@ -83,6 +87,9 @@ func genScenario(t *rapid.T) scenario {
 		k := rapid.IntRange(1, maxK).Draw(t, "k")
 		remaining -= k
 		c := callerSpec{K: k, Kind: rapid.SampledFrom([]int{kindCor, kindCor, kindDoNotation, kindNewAndStart}).Draw(t, "kind"), IOAt: -1, Gap: rapid.IntRange(0, 3).Draw(t, "gap")}
+		if c.Kind == kindDoNotation {
+			c.DoRecv = rapid.IntRange(0, 2).Draw(t, "doRecv")
+		}
 		if rapid.IntRange(0, 3).Draw(t, "io") == 0 {
 			c.IOAt = rapid.IntRange(0, k-1).Draw(t, "ioAt")
 			c.IOHandler = rapid.Bool().Draw(t, "ioHandler")
@@ -135,6 +142,10 @@ func runScenario(s scenario) result {
 	h := fpgo.Handler.NewByCh(make(chan func(), 8))
 	h2 := fpgo.Handler.New()
 	defer h2.Close()
+	runnerEnd := make(chan struct{})
+	defer close(runnerEnd)
+	runner := fpgo.CorNewGenerics[int](func() { <-runnerEnd })
+	runner.Start()
 	hClosed := fpgo.Handler.New()
 	hClosed.Close()
 	defer h.Close()
@@ -281,7 +292,14 @@ func runScenario(s scenario) result {
 			close(ready)
 		case kindDoNotation:
 			go doNotationCaller(&wg, fail, func() {
-				var d fpgo.CorDef[int]
+				var zero fpgo.CorDef[int]
+				d := &zero
+				switch s.Callers[i].DoRecv {
+				case 1:
+					d = target
+				case 2:
+					d = runner
+				}
 				want := -12345
 				got := d.DoNotation(func(self *fpgo.CorDef[int]) int {
 					want = callerBody(i, self)
